@@ -457,6 +457,9 @@ def build_corpus():
     add('h_re_both', 'harness', [HReSub(), HRe()])
     add('reentrant', 'reentrant', [Reentrant([1, 2, 3]), {'k': Reentrant({'b': 1, 'a': [2, 3]})}])
     add('reentrant_lazy', 'reentrant', Reentrant(uuid.UUID(int=9)))
+    # the re-entrant print happens inside the look-ahead of an outer group that must break
+    add('reentrant_long', 'reentrant', ['first element', Reentrant([1, 2, 3]), 'x' * 40, 'y' * 40], dict(width=79))
+    add('reentrant_long_dict', 'reentrant', {'k': Reentrant({'a': 1}), 'long': ['z' * 30, 'w' * 30, 'v' * 30]}, dict(width=60))
     add('oldstyle', 'reentrant', {'old': OldStyle([1, 2, {'z': 1, 'a': 2}]), 'more': [OldStyle(Col.R)] * 2})
     add('cyclic', 'cycle', cyc, idfree=False)
     add('cyclic_depth', 'cycle', [cyc, cyc], dict(depth=3), idfree=False)
